@@ -10,7 +10,7 @@ use serde_json::json;
 use std::collections::BTreeSet;
 
 const MAX_DEV: usize = 2;
-const N_MESHES: usize = 6;
+const N_MESHES: usize = 7;
 const EXEC_CAP: usize = 50_000;
 
 pub fn subject(which: usize) -> Mesh {
@@ -24,6 +24,28 @@ pub fn subject(which: usize) -> Mesh {
             // "roof": two normals sharing vertices
             let v = vec![Point3::new(0.0, 0.0, 0.0), Point3::new(0.0, 1.0, 0.0), Point3::new(1.0, 0.0, 0.0), Point3::new(1.0, 1.0, 0.0), Point3::new(-1.0, 0.0, 1.0), Point3::new(-1.0, 1.0, 1.0)];
             Mesh::new(v, vec![[0, 2, 3], [0, 3, 1], [4, 0, 1], [4, 1, 5]], false)
+        }
+        6 => {
+            // a 3x3-cell sheet lying 0.3 above the tilted reference plane and exactly parallel to it: every
+            // face normal equals the reference normal up to the last bit
+            let (c, s) = (TILT.cos(), TILT.sin());
+            let n = Vector3::new(0.0, -s, c);
+            let mut v = Vec::new();
+            for i in 0..4 {
+                for j in 0..4 {
+                    let (u, w) = (-0.7 + 0.45 * i as f64, -0.4 + 0.37 * j as f64);
+                    v.push(Point3::new(u, w * c, w * s) + n * 0.3);
+                }
+            }
+            let mut f: Vec<[u32; 3]> = Vec::new();
+            for i in 0..3u32 {
+                for j in 0..3u32 {
+                    let a = i * 4 + j;
+                    f.push([a, a + 4, a + 5]);
+                    f.push([a, a + 5, a + 1]);
+                }
+            }
+            Mesh::new(v, f, false)
         }
         5 => {
             // unwelded (every face owns its vertices, as read from an STL file) and two-sided: faces 0 and 1 share
@@ -341,7 +363,7 @@ fn expand(t: &Tables, st: &State, depth: usize, l: &mut Local, out: &mut Vec<Sta
 
 pub fn run(tier: Tier) -> i32 {
     let mut cx = Ctx::new("C14", tier, "model_checking");
-    cx.rule = "explicit-state search over selections (bit sets over the faces of a tetrahedron, a two-normal 'roof', an octahedron, the roof with an extra zero-area face, the roof with rotated index triples and an unwelded two-sided sheet): initial states none, all, every singleton, every pair; actions {Add, Remove, Keep} x {facing: 7 directions x 3 angles; near_mesh: 5 reference meshes (two large planes, an offset copy, a small square whose border the subject overhangs, a tilted plane) x all/any vertices x 2 distances x planar None/0.2 x angle None/0.3/1.0}; every transition (and the mesh built from every state) is executed under all hash-set iteration orders with at most 2 departures from the default order; the per-face predicate is computed (i) independently from the geometry for the plane references and (ii) by the code itself in the canonical context (singleton selection, Keep). distinct = distinct (mesh, selection) states".into();
+    cx.rule = "explicit-state search over selections (bit sets over the faces of a tetrahedron, a two-normal 'roof', an octahedron, the roof with an extra zero-area face, the roof with rotated index triples, an unwelded two-sided sheet and a sheet exactly parallel to the tilted reference): initial states none, all, every singleton, every pair; actions {Add, Remove, Keep} x {facing: 7 directions x 3 angles; near_mesh: 5 reference meshes (two large planes, an offset copy, a small square whose border the subject overhangs, a tilted plane) x all/any vertices x 2 distances x planar None/0.2 x angle None/0.3/1.0}; every transition (and the mesh built from every state) is executed under all hash-set iteration orders with at most 2 departures from the default order; the per-face predicate is computed (i) independently from the geometry for the plane references and (ii) by the code itself in the canonical context (singleton selection, Keep). distinct = distinct (mesh, selection) states".into();
     let t = tables();
     cx.bounds = json!({"max_deviations": MAX_DEV, "criteria": t.crits.len(), "meshes": 3, "depth": "closure", "execution_cap": EXEC_CAP});
     cx.require(&["non-initial selection", "empty selection", "full selection", "partial selection", "facing criterion", "near-mesh criterion with angle tolerance", "near-mesh criterion without angle tolerance", "independent predicate agrees"]);
@@ -381,6 +403,10 @@ pub fn run(tier: Tier) -> i32 {
         init.push(State { mesh: mi, sel: (0..nf).collect() });
         for a in 0..nf {
             init.push(State { mesh: mi, sel: vec![a] });
+            if mi == 6 {
+                // the 18-face sheet starts from the empty, full and single-face selections only
+                continue;
+            }
             for b in a + 1..nf {
                 init.push(State { mesh: mi, sel: vec![a, b] });
             }
